@@ -33,6 +33,33 @@ def cyclic(spec, above=()):
     return any(cyclic(c, nxt) for c in spec["ch"])
 
 
+def graph_cyclic(spec):
+    """cycle in the id dependency graph: an atom whose id also names a sub-proposition is a reference to it (so siblings that refer
+    to each other, or a reference that precedes the definition it closes a ring with, are cycles although no tree path repeats an id)"""
+    edges = {}
+
+    def go(n):
+        if n["t"] == "var":
+            edges.setdefault(n["id"], set())
+            return n["id"]
+        me = n.get("id") or ("gen", id(n))
+        tgt = edges.setdefault(me, set())
+        for c in n["ch"]:
+            tgt.add(go(c))
+        return me
+    go(spec)
+    state = {}
+
+    def dfs(u):
+        state[u] = 1
+        for v in edges.get(u, ()):
+            if state.get(v) == 1 or (state.get(v) is None and dfs(v)):
+                return True
+        state[u] = 2
+        return False
+    return any(state.get(u) is None and dfs(u) for u in list(edges))
+
+
 def duplicate_child(spec):
     if spec["t"] == "var":
         return False
@@ -44,7 +71,7 @@ def duplicate_child(spec):
 
 def welldefined(spec, P, EQ, AND, TRUE, FALSE):
     """P(x): parameter value; EQ(a,b), AND(list): algebra.  Returns an element of the algebra."""
-    if cyclic(spec) or duplicate_child(spec):
+    if cyclic(spec) or graph_cyclic(spec) or duplicate_child(spec):
         return FALSE
     occ = [o for o in occurrences(spec) if o["id"] is not None]
     conj = []
